@@ -1691,6 +1691,7 @@ func ruleAdmitClass(p *Prog, r *Result) {
 			tvals = append(tvals, tv)
 		}
 		sort.Slice(tvals, func(i, j int) bool { return tvals[i] < tvals[j] })
+		var sideKind *types.Named // when set: the node kind of the operand on `side`
 		rejectsT := func(tv int64, side string, otherTv int64) string {
 			fieldOf := map[string]string{"left": "Left", "right": "Right"}
 			other := map[string]string{"left": "right", "right": "left"}[side]
@@ -1762,6 +1763,16 @@ func ruleAdmitClass(p *Prog, r *Result) {
 				if want < 0 {
 					return abBoth, false
 				}
+				if sideKind != nil && roleOf(fn, ta.X, bound) == side {
+					if nt := namedOf(ta.AssertedType); nt != nil {
+						if _, isIface := nt.Underlying().(*types.Interface); !isIface {
+							if nt.Obj() == sideKind.Obj() {
+								return abTrue, true
+							}
+							return abFalse, true
+						}
+					}
+				}
 				if nt := namedOf(ta.AssertedType); nt != nil {
 					if ft, fixed := p.fixedReturnType(nt); fixed && ft != want {
 						return abFalse, true
@@ -1817,6 +1828,36 @@ func ruleAdmitClass(p *Prog, r *Result) {
 				}
 			}
 			r.add(accepted == "", fmt.Sprintf("%s|%s", name, tn), p.Pos(helper.Pos()), fmt.Sprintf("operator %s %s; its typing helper %s must reject operands of static type %s%s", name, classNote, helper.Name(), tn, map[bool]string{true: " but accepts them at " + accepted}[accepted != ""]))
+		}
+		// the verdict depends on the static type of an operand, not on the kind of node that has it: where the helper
+		// accepts a function call of static type k on one side (a node whose type is only known through ReturnType),
+		// it accepts every node kind whose type is always k. (A node-kind list in front of the type test that forgets
+		// a kind refuses statements the typing rules allow - and the trees the constant folder leaves behind.)
+		if fc := p.Named("FunctionCallExpr"); fc != nil {
+			for _, side := range []string{"left", "right"} {
+				for _, tv := range tvals {
+					if !supported[types_[tv]] {
+						continue
+					}
+					sideKind = fc
+					generic := rejectsT(tv, side, -1)
+					sideKind = nil
+					if generic == "" {
+						continue
+					}
+					for _, t := range p.exprTypes() {
+						ft, fixed := p.fixedReturnType(t)
+						if !fixed || ft != tv {
+							continue
+						}
+						sideKind = t
+						acc := rejectsT(tv, side, -1)
+						sideKind = nil
+						n++
+						r.add(acc != "", fmt.Sprintf("%s|kind|%s|%s", name, side, t.Obj().Name()), p.Pos(helper.Pos()), fmt.Sprintf("operator %s: %s accepts a function call of static type %s as its %s operand, so it accepts a %s node, whose type is always %s", name, helper.Name(), types_[tv], side, t.Obj().Name(), types_[tv]))
+					}
+				}
+			}
 		}
 		if arith {
 			// arithmetic: the evaluator handles number with number (and text with text where a text variant is dispatched);
